@@ -648,6 +648,15 @@ theorem docValid_refines (d : didtypes.DIDDocument) (hn : NoNil d) :
           doc_tail d, hn
       | some c =>
         simp only [Option.isNone_some, Bool.not_false, if_true, deref_some, P.ok_bind]
+        cases c with
+        | nil => simp [Go.len]
+        | cons c0 cr =>
+        have hlen : decide (Go.len (c0 :: cr) = 0) = false := by
+          simp only [Go.len, List.length_cons]
+          apply decide_eq_false
+          omega
+        simp only [hlen, List.isEmpty_cons, Bool.false_eq_true, if_false]
+        generalize (c0 :: cr) = c
         bsplit (Did.emptyDIDs c)
         · -- every controller entry is empty: nothing more to check about it
           cases hX : d.Contexts with
